@@ -162,6 +162,7 @@ type Path struct {
 	ndiv    int
 	protoBlobs map[*Obj]protoBlob
 	bigBlobs   map[*Obj]*Term // opaque big-endian encodings of non-zero integers (obligation option bigblob=1)
+	lockEdges  map[string]bool // "a -> b": mutex b was acquired while a was held (lock-order graph of this path)
 	nblob   int
 	obsTerms []obsTerm
 	knownTrue map[string]bool
@@ -871,7 +872,7 @@ func (e *Engine) newPath(s *Solver, prefix []int) *Path {
 	p := &Path{E: e, S: s, prefix: prefix, names: map[string]int{}, funcs: map[string]bool{}, stubs: map[string]bool{},
 		notes: map[string]bool{}, covers: map[string]bool{}, obs: map[string]string{}, views: map[string]*Obj{}, viewOf: map[*Obj]PtrV{},
 		inOverride: map[*ssa.Function]bool{}, choices: map[string]int{}, ufs: map[string][]ufApp{}, declared: map[string]bool{},
-		mutexes: map[*Obj]int{}, ndNames: map[string]int{}, chans: map[int]*chanState{}, divCache: map[string]*Term{}, protoBlobs: map[*Obj]protoBlob{}, bigBlobs: map[*Obj]*Term{}, knownTrue: map[string]bool{}, locks: map[string]int{}, flags: map[string]bool{},
+		mutexes: map[*Obj]int{}, ndNames: map[string]int{}, chans: map[int]*chanState{}, divCache: map[string]*Term{}, protoBlobs: map[*Obj]protoBlob{}, bigBlobs: map[*Obj]*Term{}, lockEdges: map[string]bool{}, knownTrue: map[string]bool{}, locks: map[string]int{}, flags: map[string]bool{},
 		syncMaps: map[string]*MapV{}, atomVals: map[string]Value{}}
 	p.tb = &TB{}
 	if s != nil {
